@@ -124,6 +124,14 @@ def gen_cipher_cfg(rng, fam, seed_tag="k"):
             else:
                 iv = max(0, (1 << (8 * cl)) - 1 - rng.randrange(0, 40)) if cl >= 2 else 0
             cfg["initial_value"] = iv
+            if rng.random() < 0.3:
+                # the same mode through a Crypto.Util.Counter object: the only way to a little-endian counter or a suffix
+                # (wide enough and started low enough that the histories of C09/C10/C16 never reach the wrap: C11 does that)
+                nb = rng.choice([2, 3, 4, 8, bs]) if bs == 16 else rng.choice([2, 3, 4, bs])
+                pre = rng.randrange(0, bs - nb + 1)
+                top = (1 << (8 * nb)) - 9000
+                cfg["counter"] = {"nbytes": nb, "prefix": [s + 2, pre], "suffix": [s + 3, bs - nb - pre], "le": rng.random() < 0.5,
+                                  "iv": rng.choice([0, 1, 255, 256, 65535 if nb > 2 else 0, top, rng.randrange(top)])}
     elif fam == "ChaCha20":
         cfg.update(alg="ChaCha20", key=[s, 32], nonce=[s + 1, rng.choice([8, 12, 24])])
     elif fam == "Salsa20":
@@ -132,6 +140,8 @@ def gen_cipher_cfg(rng, fam, seed_tag="k"):
         cfg.update(alg="ARC4", key=[s, rng.choice([1, 5, 16, 40, 256])], drop=rng.choice([0, 0, 768, 3072]))
     else:
         raise ValueError(fam)
+    if cfg.get("alg") == "ARC2" and rng.random() < 0.5:
+        cfg["effective_keylen"] = rng.choice([40, 41, 64, 127, 128, 1000, 1023])      # changes the permutation
     return cfg
 
 
@@ -170,6 +180,11 @@ def make_cipher(cfg, **extra):
         kw["iv"] = D(cfg["iv"]) if not extra.get("_pgp_dec_iv") else extra["_pgp_dec_iv"]
     elif fam == "CFB":
         kw.update(iv=D(cfg["iv"]), segment_size=cfg["segment_size"])
+    elif fam == "CTR" and cfg.get("counter") and "nonce" not in extra and "initial_value" not in extra and "counter" not in extra:
+        from Crypto.Util import Counter
+        c = cfg["counter"]
+        kw["counter"] = Counter.new(8 * c["nbytes"], prefix=D(c["prefix"]), suffix=D(c["suffix"]), initial_value=c["iv"],
+                                    little_endian=c["le"])
     elif fam == "CTR":
         kw.update(nonce=D(cfg["nonce"]), initial_value=cfg["initial_value"])
     if alg == "ARC2" and cfg.get("effective_keylen"):
